@@ -4,11 +4,12 @@
 //! Case line (integers): `ic ii  ntrees {id kind nnodes node*}  nidx idx*  nparents pid*
 //! nevents {0 node name | 1 | 2 node}` with
 //! `node := name type targ size mt_opt ct_opt inode other ncontent(-1 = None) content* subtree_opt`,
-//! `opt := 0 | 1 v`, type 0 file 1 dir 2 symlink(targ) 3 dev(targ) 4 chardev(targ) 5 fifo 6 socket,
+//! `opt := 0 | 1 v` (time stamps in nanoseconds), type 0 file 1 dir 2 symlink(targ) 3 dev(targ) 4 chardev(targ) 5 fifo 6 socket,
 //! tree kind 0 = JSON of the nodes, 1 = undecodable bytes.
 //! Result: one token per event (`T:M<id>|T:N|T:X`, `E:ok|E:err`, `O:<M|N|X>:<content>`), then `| P<id|->`.
 //!
 //! Mode `e2e` (argv[2]): case line `seed popt prune stealth`; see `e2e_case`.
+//! Mode `mem` (argv[2]): backups of in-memory sources with freely chosen metadata; see `mem_case`.
 use std::collections::BTreeMap;
 use std::ffi::OsString;
 use std::fs;
@@ -18,7 +19,9 @@ use std::path::{Path, PathBuf};
 use rustic_core::jiff::Timestamp;
 use rustic_core::repofile::{Metadata, Node, NodeType};
 use rustic_core::verif_hooks::c11::{MemTrees, PResult, ParentHandle, tree_json};
+use rustic_core::repofile::SnapshotFile;
 use rustic_core::{
+    ReadSource, ReadSourceEntry, RusticResult,
     BackupOptions, DataId, FileType, Id, ParentOptions, ReadBackend, RepairIndexOptions, RestoreOptions, TreeId,
     WriteBackend,
 };
@@ -34,6 +37,11 @@ fn name_of(n: u64) -> OsString {
 
 fn opt(t: &mut Toks) -> Option<u64> {
     if t.u() == 1 { Some(t.u()) } else { None }
+}
+
+/// time stamps travel as nanoseconds since the epoch
+fn ts_of(ns: u64) -> Timestamp {
+    Timestamp::new((ns / 1_000_000_000) as i64, (ns % 1_000_000_000) as i32).unwrap()
 }
 
 fn rd_node(t: &mut Toks) -> Node {
@@ -63,8 +71,8 @@ fn rd_node(t: &mut Toks) -> Node {
     };
     let mut meta = Metadata::default();
     meta.size = size;
-    meta.mtime = mt.map(|s| Timestamp::from_second(s as i64).unwrap());
-    meta.ctime = ct.map(|s| Timestamp::from_second(s as i64).unwrap());
+    meta.mtime = mt.map(ts_of);
+    meta.ctime = ct.map(ts_of);
     meta.inode = inode;
     meta.mode = Some(other as u32);
     let mut n = Node::new_node(&name_of(name), node_type, meta);
@@ -220,8 +228,9 @@ impl Editor<'_> {
         (md.mtime(), md.mtime_nsec() as u32)
     }
     /// one edit; `stealth` allows the edit that keeps size and mtime
-    fn step(&mut self, stealth: bool) {
-        let k = self.r.below(if stealth { 16 } else { 14 });
+    /// `stealth`: 0 = never the edit that keeps size and mtime, 1 = sometimes, 2 = every second edit
+    fn step(&mut self, stealth: u64) {
+        let k = if stealth == 2 && self.r.below(2) == 0 { 17 } else { self.r.below(if stealth > 0 { 18 } else { 16 }) };
         match k {
             0 | 1 => {
                 // content change with size change, new mtime
@@ -378,8 +387,26 @@ impl Editor<'_> {
                     self.log.push("remove");
                 }
             }
+            14 | 15 => {
+                // same size, other bytes, mtime moved WITHIN the same second: a whole-second mtime gets a
+                // sub-second part, a fractional one becomes the whole second (inside the premise: mtime differs)
+                if let Some(f) = self.pick(0) {
+                    let p = self.root.join(&f);
+                    let old = fs::read(&p).unwrap();
+                    if !old.is_empty() {
+                        let (s0, ns0) = Self::old_mtime(&p);
+                        let ns = if ns0 == 0 { [1u32, 1000, 400_000_000, 999_999_999][self.r.below(4) as usize] } else { 0 };
+                        let mut b = old.clone();
+                        let i = self.r.below(b.len() as u64) as usize;
+                        b[i] ^= 1 + self.r.below(255) as u8;
+                        fs::write(&p, b).unwrap();
+                        set_mtime(&p, (s0, ns)).unwrap();
+                        self.log.push(if ns0 == 0 { "content-samesize,mtime-whole->subsec" } else { "content-samesize,mtime-subsec->whole" });
+                    }
+                }
+            }
             _ => {
-                // OUTSIDE the premise when ctime is ignored: same size, other bytes, mtime restored
+                // same size, other bytes, mtime restored: only ctime tells (OUTSIDE the premise iff ctime is ignored)
                 if let Some(f) = self.pick(0) {
                     let p = self.root.join(&f);
                     let old = fs::read(&p).unwrap();
@@ -421,7 +448,7 @@ fn e2e_case(line: &str) -> String {
     let seed = t.u();
     let popt = t.u();
     let prune = t.u();
-    let stealth = t.u() == 1;
+    let stealth = t.u();
     let res = (|| -> anyhow::Result<String> {
         let mut r = SplitMix(seed);
         let tp = TreeParams { max_entries: 28, max_depth: 3, max_file: 30_000, odd_names: true, symlinks: true, hardlinks: false };
@@ -433,6 +460,14 @@ fn e2e_case(line: &str) -> String {
         let src = tempfile::Builder::new().prefix("c11src").tempdir()?;
         let root = src.path().join("src");
         materialize(&root, &entries)?;
+        {
+            let mut r2 = SplitMix(seed ^ 0x5eed_c11);
+            for e in &entries {
+                if matches!(e.kind, Kind::File(_)) && r2.below(2) == 0 {
+                    set_mtime(&root.join(&e.path), (e.mtime.0, 0))?;
+                }
+            }
+        }
         let store = mem();
         let (repo, _key) = init_repo(store.clone(), None, &small_pack_config(6_000, 600), &repo_opts())?;
         let ic = matches!(popt, 3 | 6 | 7);
@@ -446,7 +481,7 @@ fn e2e_case(line: &str) -> String {
         let mut parent_ids = vec![];
         let (mut repo, snap1) = if two {
             let n = 1 + ed.r.below(3);
-            for _ in 0..n { ed.step(false); }
+            for _ in 0..n { ed.step(0); }
             let st = scan_state(&root);
             let (repo, s1) = backup_dir(repo, &root, "src", None)?;
             parent_states.push(st);
@@ -508,7 +543,7 @@ fn e2e_case(line: &str) -> String {
             }
         }
         let before = scan_state(&root);
-        let nsteps = ed.r.below(7);
+        let nsteps = if stealth == 2 { 1 + ed.r.below(4) } else { ed.r.below(7) };
         for _ in 0..nsteps { ed.step(stealth); }
         let edits = ed.log.join("+");
         let state1 = scan_state(&root);
@@ -593,6 +628,141 @@ fn e2e_case(line: &str) -> String {
     }
 }
 
+// ------------------------------------------------------------------ mem mode (in-memory source)
+
+/// An in-memory backup source (public `ReadSource`): entries in the order a directory walk yields them,
+/// with freely chosen metadata (mtime, ctime, inode) — what cannot be set on disk.
+struct MemSource(Vec<(PathBuf, Node, Option<Vec<u8>>)>);
+
+impl ReadSource for MemSource {
+    type Open = std::io::Cursor<Vec<u8>>;
+    type Iter = std::vec::IntoIter<RusticResult<ReadSourceEntry<Self::Open>>>;
+    fn size(&self) -> RusticResult<Option<u64>> {
+        Ok(None)
+    }
+    fn entries(&self) -> Self::Iter {
+        self.0
+            .iter()
+            .map(|(path, node, data)| Ok(ReadSourceEntry { path: path.clone(), node: node.clone(), open: data.clone().map(std::io::Cursor::new) }))
+            .collect::<Vec<_>>()
+            .into_iter()
+    }
+}
+
+/// one state: `nentries {kind depth name targ mt_opt ct_opt inode len seed}` in walk order below the root dir `r`
+fn rd_state(t: &mut Toks) -> MemSource {
+    let n = t.u();
+    let mut v = Vec::new();
+    let mut rmeta = Metadata::default();
+    rmeta.mode = Some(0o755);
+    rmeta.mtime = Some(ts_of(1_700_000_000_000_000_000));
+    rmeta.ctime = Some(ts_of(1_700_000_000_000_000_000));
+    v.push((PathBuf::from("r"), Node::new_node(std::ffi::OsStr::new("r"), NodeType::Dir, rmeta), None));
+    let mut stack: Vec<PathBuf> = vec![PathBuf::from("r")];
+    for _ in 0..n {
+        let kind = t.u();
+        let depth = t.u() as usize;
+        let name = format!("n{:04}", t.u());
+        let targ = t.u();
+        let mt = opt(t);
+        let ct = opt(t);
+        let inode = t.u();
+        let len = t.u() as usize;
+        let seed = t.u();
+        stack.truncate(depth);
+        let path = stack.last().unwrap().join(&name);
+        let mut meta = Metadata::default();
+        meta.mtime = mt.map(ts_of);
+        meta.ctime = ct.map(ts_of);
+        meta.inode = inode;
+        match kind {
+            1 => {
+                meta.mode = Some(0o755);
+                v.push((path.clone(), Node::new_node(std::ffi::OsStr::new(&name), NodeType::Dir, meta), None));
+                stack.push(path);
+            }
+            2 => {
+                meta.mode = Some(0o777);
+                let nt = NodeType::Symlink { linktarget: format!("t{targ}"), linktarget_raw: None };
+                v.push((path, Node::new_node(std::ffi::OsStr::new(&name), nt, meta), None));
+            }
+            _ => {
+                meta.mode = Some(0o644);
+                meta.size = len as u64;
+                let data = Content::Random { seed, len }.bytes();
+                v.push((path, Node::new_node(std::ffi::OsStr::new(&name), NodeType::File, meta), Some(data)));
+            }
+        }
+    }
+    MemSource(v)
+}
+
+/// `ic ii skip nstates state*  nparents idx*`: states 0..n-2 are backed up with `force` (every file
+/// read), the last one with the given parent options (explicit parents = snapshots of the listed
+/// states, none listed = latest), then once more with `force`; every file of the parent-based
+/// snapshot is dumped and compared with the source bytes.
+fn mem_case(line: &str) -> String {
+    let mut t = Toks::new(line);
+    let ic = t.u() == 1;
+    let ii = t.u() == 1;
+    let skip = t.u() == 1;
+    let ns = t.u() as usize;
+    let states: Vec<MemSource> = (0..ns).map(|_| rd_state(&mut t)).collect();
+    let np = t.u();
+    let pidx: Vec<usize> = (0..np).map(|_| t.u() as usize).collect();
+    let res = (|| -> anyhow::Result<String> {
+        let store = mem();
+        let (repo, _key) = init_repo(store.clone(), None, &small_pack_config(6_000, 600), &repo_opts())?;
+        let paths = [PathBuf::from("r")];
+        let force = BackupOptions::default().parent_opts(ParentOptions::default().force(true));
+        let mut repo = repo;
+        let mut ids = Vec::new();
+        for st in &states[..ns - 1] {
+            let r = repo.to_indexed_ids()?;
+            let sn = r.archive(&force, st, SnapshotFile::default(), &paths)?;
+            ids.push(sn.id.to_hex().to_string());
+            repo = r.drop_index();
+        }
+        let cur = &states[ns - 1];
+        let mut po = ParentOptions::default().ignore_ctime(ic).ignore_inode(ii).skip_if_unchanged(skip);
+        if !pidx.is_empty() {
+            po = po.parents(pidx.iter().map(|i| ids[*i].clone()).collect::<Vec<_>>());
+        }
+        let r = repo.to_indexed_ids()?;
+        let snap2 = r.archive(&BackupOptions::default().parent_opts(po), cur, SnapshotFile::default(), &paths)?;
+        let sum2 = snap2.summary.clone().unwrap_or_default();
+        let saved2 = store.list(FileType::Snapshot)?.iter().any(|i| *i == *snap2.id);
+        let repo = r.drop_index();
+        // dump every file of the parent-based snapshot BEFORE the forced backup
+        let ir = repo.to_indexed()?;
+        let mut dump = String::from("same");
+        for (path, node, data) in &cur.0 {
+            if let Some(d) = data {
+                let mut got = Vec::new();
+                let ok = ir.node_from_path(snap2.tree, path).and_then(|n| ir.dump(&n, &mut got)).is_ok();
+                if !ok || &got != d {
+                    dump = format!("{}:{}", if ok { "diff" } else { "error" }, path.display());
+                    break;
+                }
+            }
+            let _ = node;
+        }
+        let repo = ir.drop_index();
+        let r = repo.to_indexed_ids()?;
+        let snap_f = r.archive(&force, cur, SnapshotFile::default(), &paths)?;
+        let sum_f = snap_f.summary.clone().unwrap_or_default();
+        Ok(format!(
+            "ok tree_equal={} dump={} saved2={} parents_used={} unmod={} changed={} new={} f_new={}",
+            u8::from(snap2.tree == snap_f.tree), dump, u8::from(saved2), snap2.parents.len(),
+            sum2.files_unmodified, sum2.files_changed, sum2.files_new, sum_f.files_new
+        ))
+    })();
+    match res {
+        Ok(s) => s,
+        Err(e) => format!("error {}", format!("{e:#}").replace('\n', " ")),
+    }
+}
+
 fn repo_reopen(store: &std::sync::Arc<rustic_testing::backend::in_memory_backend::InMemoryBackend>, key: &rustic_core::repofile::MasterKey) -> anyhow::Result<RepoOpen> {
     open_repo(store.clone(), None, key, &repo_opts())
 }
@@ -615,11 +785,13 @@ fn main() {
     if std::env::var("C11_DEBUG").is_ok() {
         // no panic hook, no catch: show where a case fails
         for l in std::fs::read_to_string(std::env::args().nth(1).unwrap()).unwrap().lines() {
-            println!("{}", if mode == "e2e" { e2e_case(l) } else { hook_case(l) });
+            println!("{}", if mode == "e2e" { e2e_case(l) } else if mode == "mem" { mem_case(l) } else { hook_case(l) });
         }
         return;
     }
-    if mode == "e2e" {
+    if mode == "mem" {
+        for_each_case(|l| mem_case(l));
+    } else if mode == "e2e" {
         for_each_case(|l| e2e_case(l));
     } else {
         for_each_case(|l| hook_case(l));
